@@ -17,6 +17,7 @@ import (
 	"strings"
 	"sync"
 
+	"github.com/DemoHn/Zn/pkg/common"
 	"github.com/DemoHn/Zn/pkg/exec"
 	r "github.com/DemoHn/Zn/pkg/runtime"
 	"github.com/DemoHn/Zn/pkg/server"
@@ -117,29 +118,65 @@ func main() {
 			return v.String(), "200"
 		})
 	case "headers":
-		entry := filepath.Join(*dir, "entry-h.zn")
-		os.WriteFile(entry, []byte("输入当前请求\n输出【“头” = 当前请求之头部，“查” = 当前请求之查询参数】\n"), 0o644)
-		h := server.NewZnHttpHandler(newInterp(), entry)
-		seen := map[string]int{}
-		for i := 0; i < *n; i++ {
-			req := httptest.NewRequest("GET", "/p?alpha=1&beta=2&gamma=3&delta=4&epsilon=5&zeta=6", nil)
-			for _, k := range []string{"X-A", "X-B", "X-C", "X-D", "X-E", "X-F", "Accept", "User-Agent"} {
-				req.Header.Set(k, "v-"+k)
+		// the same request served again and again must give the same response, byte for byte:
+		// several request shapes, each with its own entry file
+		httpLib := r.NewLibrary("@响应库")
+		httpLib.RegisterClass("HTTP响应", common.CLASS_HttpResponse)
+		mk := func() *exec.Interpreter {
+			return exec.NewInterpreter("verif").SetExternalLibs([]*r.Library{zjson.Export(), zfile.Export(), httpLib})
+		}
+		type shape struct {
+			name, src, target string
+			hdr               map[string][]string
+		}
+		echo := "输入当前请求\n输出【“头” = 当前请求之头部，“查” = 当前请求之查询参数】\n"
+		plain := map[string][]string{}
+		for _, k := range []string{"X-A", "X-B", "X-C", "X-D", "X-E", "X-F", "Accept", "User-Agent"} {
+			plain[k] = []string{"v-" + k}
+		}
+		shapes := []shape{
+			{"distinct-names", echo, "/p?alpha=1&beta=2&gamma=3&delta=4&epsilon=5&zeta=6", plain},
+			{"names-differing-in-case", echo, "/items?id=1&ID=2&Id=3&page=4&Page=5&q=6&Q=7", map[string][]string{"x-trace": {"a"}, "X-Trace": {"b"}, "X-TRACE": {"c"}, "accept": {"d"}, "Accept": {"e"}}},
+			{"repeated-names", echo, "/p?a=1&a=2&b=3&b=4&c=5&A=6", plain},
+			{"response-headers", "导入《@响应库》\n输入当前请求\n输出（新建HTTP响应：200、“ok”、【“x-tag” = “first”，“X-Tag” = “second”，“X-TAG” = “third”，“b” = “1”，“B” = “2”，“c” = “3”】）\n", "/r", plain},
+			{"response-default-headers", "导入《@响应库》\n输入当前请求\n令应 = （新建HTTP响应：201、【“k” = 1，“j” = 2，“i” = 3】）\n应之头部#“x-a” = “1”\n应之头部#“X-A” = “2”\n输出应\n", "/r2", plain},
+		}
+		for si, sh := range shapes {
+			entry := filepath.Join(*dir, fmt.Sprintf("entry-h%d.zn", si))
+			os.WriteFile(entry, []byte(sh.src), 0o644)
+			h := server.NewZnHttpHandler(mk(), entry)
+			seen := map[string]int{}
+			for i := 0; i < *n; i++ {
+				req := httptest.NewRequest("GET", sh.target, nil)
+				for k, v := range sh.hdr {
+					req.Header[k] = v
+				}
+				w := httptest.NewRecorder()
+				h.ServeHTTP(w, req)
+				hk := []string{}
+				for k := range w.Header() {
+					hk = append(hk, k)
+				}
+				sort.Strings(hk)
+				resp := fmt.Sprint(w.Code) + " "
+				for _, k := range hk {
+					resp += k + "=" + strings.Join(w.Header()[k], "|") + "; "
+				}
+				seen[resp+w.Body.String()]++
+				sum.Requests++
 			}
-			w := httptest.NewRecorder()
-			h.ServeHTTP(w, req)
-			seen[w.Body.String()]++
-			sum.Requests++
-		}
-		sum.Distinct = len(seen)
-		keys := []string{}
-		for k := range seen {
-			keys = append(keys, k)
-		}
-		sort.Strings(keys)
-		for i, k := range keys {
-			if i < 3 {
-				sum.Samples = append(sum.Samples, fmt.Sprintf("%dx %s", seen[k], k))
+			if len(seen) > sum.Distinct {
+				sum.Distinct = len(seen)
+			}
+			keys := []string{}
+			for k := range seen {
+				keys = append(keys, k)
+			}
+			sort.Strings(keys)
+			for i, k := range keys {
+				if (len(seen) > 1 && i < 3) || (si == 0 && i == 0) {
+					sum.Samples = append(sum.Samples, fmt.Sprintf("[%s] %dx %s", sh.name, seen[k], k))
+				}
 			}
 		}
 	}
